@@ -1,7 +1,7 @@
 (* C01 — Parsing: one row per ATOM record, each field from its fixed wwPDB columns.
    Model: Model_parse.v over the tables/leaf functions regenerated from pdb2sqlcore.py and
    pdb2sql_base.py (Generated_parse.v).  Spec: Spec_parse.v (wwPDB columns, 1-based inclusive). *)
-From Verif Require Import PyLib ModelTypes Generated_parse Model_parse Spec_parse Proofs_text Proofs_parse.
+From Verif Require Import PyLib ModelTypes Generated_parse Model_parse Spec_parse Proofs_text Proofs_parse Proofs_forms.
 Open Scope string_scope.
 
 (* the slice table and the column types in today's source ARE the wwPDB table *)
@@ -39,6 +39,18 @@ Theorem C01_other_records_ignored : forall l1 x l2 n,
   parse_lines (l1 ++ x :: l2)%list n = parse_lines (l1 ++ l2)%list n.
 Proof. exact other_records_ignored. Qed.
 Print Assumptions C01_other_records_ignored.
+
+(* the table is identical whichever accepted container carries the same text: path string / Path object
+   (readlines), whole-file str / bytes when recognised as content (split at newlines), list / ndarray of
+   lines with or without their terminators *)
+Theorem C01_forms_agree : forall txt,
+  parse (InText FPath txt) = parse (InText FPathObj txt) /\
+  (Nat.ltb 3 (count_sub (String nl "ATOM ") txt) = true ->
+     parse (InText FStr txt) = parse (InText FPath txt) /\ parse (InText FBytes txt) = parse (InText FPath txt)) /\
+  (forall f, split_nl txt <> [] -> parse (InLines f (split_nl txt)) = parse (InText FPath txt)) /\
+  (forall f, readlines txt <> [] -> parse (InLines f (readlines txt)) = parse (InText FPath txt)).
+Proof. exact forms_agree. Qed.
+Print Assumptions C01_forms_agree.
 
 Theorem C01_rejects_long_record : forall nm l, (80 < length l)%nat -> parse_record nm l = Err "ValueError".
 Proof. exact long_record_rejected. Qed.
